@@ -317,6 +317,20 @@ func runC10(f *hx.Flags) {
 		seen := map[string]bool{}
 		repeated := false
 		var pending [][2]string
+		// shaped: a request BELOW a container first, then the container itself under several
+		// types (a lookup must not change what a later request for the parent sees)
+		if r.Rng.Intn(3) == 0 {
+			pairs := [][2]string{{"mi.503", "mi"}, {"mi.500", "mi"}, {"mb.true", "mb"}, {"mp.1", "mp"}, {"mp.1.a", "mp"}, {"mp.2.b", "mp.2"}, {"x.y.z", "x"}, {"x.y", "x"}, {"a.x", "a"}, {"au.int8", "au"}, {"m.x", "m"}, {"p.a", "p"}}
+			pr := pairs[r.Rng.Intn(len(pairs))]
+			childTypes := []string{"int", "string", "any", "pair", "map[string]any"}
+			parentTypes := []string{"any", "map[string]any", "map[int]int", "map[bool]string", "map[int]pair", "map[string]int", "pair", "[]any"}
+			pending = append(pending, [2]string{pr[0], childTypes[r.Rng.Intn(len(childTypes))]})
+			for _, pt := range parentTypes {
+				if r.Rng.Intn(2) == 0 {
+					pending = append(pending, [2]string{pr[1], pt})
+				}
+			}
+		}
 		for j := 0; j < L; j++ {
 			key, ty := ks[r.Rng.Intn(nk)], ts[r.Rng.Intn(nt)]
 			if len(pending) > 0 && r.Rng.Intn(3) == 0 {
